@@ -16,12 +16,12 @@ FRAMING = [b'content-length', b'content-type', b'content-range']
 def shapes(t):
     q = t == 'quick'
     out = [dict(kind='target', method=m, tlen=n) for m in ('GET', 'HEAD', 'OPTIONS') for n in (1, 2)]
-    for n in range(0, (3 if q else 5) + 1): out.append(dict(kind='range', rlen=n))
-    out.append(dict(kind='raw', cap=4 if q else 6))
+    for n in range(0, (3 if q else 4) + 1): out.append(dict(kind='range', rlen=n))
+    out.append(dict(kind='raw', cap=4 if q else 5))
     out.append(dict(kind='readfail')); out.append(dict(kind='apperr'))
     for hname in ('Origin', 'Access-Control-Request-Headers', 'Access-Control-Request-Method'):
         for m in ('OPTIONS', 'GET'):
-            for n in range(0, (3 if q else 5) + 1): out.append(dict(kind='echo', method=m, hname=hname, vlen=n))
+            for n in range(0, (3 if q else 4) + 1): out.append(dict(kind='echo', method=m, hname=hname, vlen=n))
     for (m, target, ctype) in (('GET', '/', None), ('GET', '/style.css', None), ('GET', '/form-get-method?a=b', None),
                                ('POST', '/form-url-encoded-enctype-post-method', 'application/x-www-form-urlencoded'), ('POST', '/form-multipart-enctype-post-method', 'multipart/form-data; boundary=b')):
         out.append(dict(kind='fixed', method=m, target=target, ctype=ctype, bcap=2))
